@@ -78,7 +78,7 @@ SUSPEND_S = 300.0            # appmonitor._DELAY_INTERVAL (code, not statement)
 LIVENESS_SLACK_EVALS = 3     # the "+ constant" of the bounded-liveness clause
 ALL_APPS = ('proid.web', 'proid.web-db', 'other.job')
 FAIL_KINDS = ('notfound', 'badrequest', 'validation', 'error_before',
-              'lost_ack')
+              'lost_ack', 'zk_lost_reply')
 _CREATE_RE = re.compile(r'^/instance/([^?/]+)\?count=(-?\d+)$')
 
 GOOD_MANIFEST = {
@@ -194,6 +194,10 @@ class CellApi:
             raise HarnessError('unexpected api endpoint %r' % (api,))
         rec = world.on_post_begin(url, payload, headers)
         inject = world.fail_queue.pop(0) if world.fail_queue else None
+        zk_at = 1
+        if inject and inject.startswith('zk_lost_reply:'):
+            inject, _sep, zk_at = inject.partition(':')
+            zk_at = int(zk_at)
         rec['inject'] = inject
         if inject in ('notfound', 'badrequest', 'validation',
                       'error_before'):
@@ -201,11 +205,45 @@ class CellApi:
             world.on_post_end(rec)
             return 'raise', self._injected(inject, url)
         # the request reaches the server and is processed
+        sched_before = set(world.zk.children(z.SCHEDULED) or [])
+        new = []
+        fired = False
+        if inject == 'zk_lost_reply':
+            # the reply to one of the API server's own ZooKeeper writes is
+            # lost after the write was applied (the server reconnects)
+            client = world.api_client
+            client.fault_plan = {
+                'at': client.nwrites + zk_at,
+                'kind': 'conn_loss', 'applied': True}
         try:
-            body = self._serve(rec, payload)
+            try:
+                body = self._serve(rec, payload)
+            finally:
+                fired = inject == 'zk_lost_reply' and \
+                    world.api_client.fault_plan is None
+                world.api_client.fault_plan = None
+                if rec['kind'] == 'create':
+                    new = sorted(
+                        (i for i in set(world.zk.children(z.SCHEDULED) or [])
+                         - sched_before if _app_of(i) == rec['app']),
+                        key=_seq)
+                    if len(new) > rec['n']:
+                        world.fail(
+                            'C20:created-more-than-asked',
+                            'POST %s asked for %d, %d were scheduled: %s' % (
+                                url, rec['n'], len(new), new))
             status = 200
         except HarnessError:
             raise
+        except kazoo.exceptions.ConnectionLoss:
+            if not fired:
+                raise
+            # 500 from the API server: the client retries, then gives up
+            rec['created'] = new
+            rec['outcome'] = 'zk_lost_reply'
+            world.on_post_end(rec)
+            return 'raise', real_restclient.MaxRequestRetriesError(
+                [(0, url, 500, 'internal server error')])
         except Exception as err:   # pylint: disable=broad-except
             status = _status_of(err)
             if status == 500:
@@ -577,7 +615,7 @@ class World:
         if rec['kind'] == 'create':
             app = rec['app']
             self.probes['creates'] += 1
-            if outcome in ('ok', 'lost_ack'):
+            if outcome in ('ok', 'lost_ack', 'zk_lost_reply'):
                 self.probes['instances_created'] += len(rec.get('created',
                                                                 ()))
             if outcome == 'ok':
@@ -605,7 +643,8 @@ class World:
                 self.probes['rest_fail_' + outcome] += 1
             if outcome == 'lost_ack':
                 self.probes['lost_ack'] += 1
-            self.faults['rest_' + outcome] += 1
+            self.faults['rest_' + outcome] = \
+                self.faults.get('rest_' + outcome, 0) + 1
 
     def check_posts(self, ev):
         """Safety clauses, per application and evaluation, in terms of what
@@ -938,7 +977,10 @@ class World:
     def op_rest_fail(self, op):
         if op['kind'] not in FAIL_KINDS:
             raise HarnessError('unknown failure kind %r' % (op['kind'],))
-        self.fail_queue.extend([op['kind']] * int(op.get('n', 1)))
+        kind = op['kind']
+        if kind == 'zk_lost_reply':
+            kind = 'zk_lost_reply:%d' % int(op.get('at', 1))
+        self.fail_queue.extend([kind] * int(op.get('n', 1)))
         self.epoch += 1
 
     def op_rest_heal(self, _op):
@@ -1097,8 +1139,11 @@ class Generator:
         return op
 
     def g_rest_fail(self, world):
-        return {'op': 'rest_fail', 'kind': self.fault.choice(FAIL_KINDS),
-                'n': self.fault.choice([1, 1, 2, 3])}
+        op = {'op': 'rest_fail', 'kind': self.fault.choice(FAIL_KINDS),
+              'n': self.fault.choice([1, 1, 2, 3])}
+        if op['kind'] == 'zk_lost_reply':
+            op['at'] = self.fault.choice([1, 1, 2, 3, 4])
+        return op
 
     def g_app_config(self, world):
         app = self._app(world)
